@@ -90,6 +90,20 @@ def catalogue():
             u64(2) + b"\x01" + u64(0) + b"\x01" + u64(0), False)
     unknown("n4", "sequence<foo>", u64(0), False)
     unknown("n5", "tuple<bool,set<foo>>", b"\x02" + u64(0), False)
+    # the unknown name at every sibling position next to parametrised
+    # siblings, never reached by the bytes; the known part is non-canonical
+    unknown("n6", "tuple<set<uint8_t>,mapping<foo,sequence<uint8_t>>>",
+            u64(2) + b"\x07\x07" + u64(0), False)
+    unknown("n7", "tuple<set<uint8_t>,mapping<sequence<uint8_t>,foo>>",
+            u64(2) + b"\x07\x07" + u64(0), False)
+    unknown("n8", "variant<set<uint8_t>,tuple<foo,sequence<uint8_t>,bar>>",
+            u64(0) + u64(2) + b"\x09\x09", False)
+    unknown("n9", "tuple<set<uint8_t>,sequence<tuple<sequence<uint8_t>,foo,"
+            "set<uint8_t>>>>", u64(2) + b"\x07\x07" + u64(0), False)
+    unknown("n10", "mapping<tuple<foo,sequence<uint8_t>>,set<uint8_t>>",
+            u64(0), False)
+    unknown("n11", "tuple<bool,variant<sequence<uint8_t>,foo,set<uint8_t>>>",
+            b"\x02" + u64(2) + u64(2) + b"\x05\x05", False)
     return T
 
 
